@@ -145,6 +145,8 @@ def run(check: Check):
       check.ob('R-ATOMIC.reuse', fi, f'if exists({txt(P)})', not bad,
                'reuse arm must not touch the network or rewrite the file' +
                (f' - found {bad}' if bad else ''), node=st)
+    _no_swallow(check, aa, ff, fi)
+    _stream_decompressors(check, aa, ff, fi)
     # network calls only under the produce arm of some marker
     for _, c in ff.calls():
       p = atomic.ext_path(ff, c) or ''
@@ -156,6 +158,69 @@ def run(check: Check):
   check.floor('R-ATOMIC', 'writers', n_writers, 3)
   _block_count(check)
   _validate_file(check)
+
+
+INCREMENTAL_DECOMPRESSORS = {'lzma.LZMADecompressor', 'bz2.BZ2Decompressor', 'zlib.decompressobj'}
+
+
+def _no_swallow(check: Check, aa: AtomicAnalysis, ff: FuncFlow, fi):
+  """An exception handler between the temp writer and the publishing rename must not let control reach the rename
+  without the guarded statements having run again: a swallowed I/O error would publish a truncated file."""
+  renames = [ff.node_of(c) for c, _, _ in aa.renames(ff)]
+  renames = [r for r in renames if r is not None]
+  handlers = [n for n in ff.cfg.nodes if n.kind == 'except']
+  if not renames:
+    return
+  seen = set()
+  for h in handlers:
+    if id(h.ast) in seen:
+      continue
+    seen.add(id(h.ast))
+    tr = ff.module.parent_of.get(h.ast)
+    body_nodes = set()
+    if isinstance(tr, ast.Try):
+      for n in ff.cfg.nodes:
+        if n.ast is not None and any(n.ast is x or any(n.ast is y for y in ast.walk(x)) for x in tr.body):
+          body_nodes.add(n.id)
+    # does the try body write / read the transfer?
+    io = False
+    if isinstance(tr, ast.Try):
+      for x in tr.body:
+        for c in ast.walk(x):
+          if isinstance(c, ast.Call) and isinstance(c.func, ast.Attribute) and c.func.attr in ('write', 'read', 'copyfileobj', 'decompress', 'add_many'):
+            io = True
+    if not io:
+      continue
+    reach = ff.cfg.reachable_from([h], avoid=body_nodes, labels_excluded=('exc', 'raise', 'reraise'))
+    bad = [r for r in renames if r.id in reach]
+    check.ob('R-ATOMIC.swallow', fi, f'except {txt(h.ast.type) if h.ast.type is not None else ""}', not bad,
+             'an error while writing the temp file is caught and control can still reach the rename that publishes it (without '
+             'the write having succeeded): a truncated file becomes the cache entry' if bad else
+             'every handled error either re-raises or repeats the guarded write before publishing', node=h.ast)
+
+
+def _stream_decompressors(check: Check, aa: AtomicAnalysis, ff: FuncFlow, fi):
+  """An incremental decompressor does not raise on truncated input: its end-of-stream flag must be checked (and a
+  failure raised) before the output is published."""
+  renames = [ff.node_of(c) for c, _, _ in aa.renames(ff)]
+  renames = [r for r in renames if r is not None]
+  for ds in ff.rd.defs_at.values():
+    for d in ds:
+      v = d.value
+      if isinstance(v, ast.Call) and ff.ext(v.func) in INCREMENTAL_DECOMPRESSORS:
+        name = d.name
+        checks = []
+        for n in ff.cfg.nodes:
+          if n.kind == 'if' and any(isinstance(x, ast.Attribute) and x.attr in ('eof', 'needs_input') and txt(x.value) == name for x in ast.walk(n.ast.test)):
+            if any(isinstance(s_, ast.Raise) for s_ in n.ast.body + n.ast.orelse):
+              checks.append(n)
+          if n.kind == 'stmt' and isinstance(n.ast, ast.Assert) and any(isinstance(x, ast.Attribute) and x.attr == 'eof' and txt(x.value) == name
+                                                                         for x in ast.walk(n.ast.test)):
+            checks.append(n)
+        ok = bool(checks) and all(any(ff.cfg.dominates(c, r) for c in checks) for r in renames)
+        check.ob('R-ATOMIC.eof', fi, f'{name} = {txt(v)}', ok,
+                 f'{txt(v.func)} silently accepts a truncated stream: `{name}.eof` must be tested (raising on failure) on every '
+                 f'path to the rename that publishes the decompressed file', node=v)
 
 
 def _block_count(check: Check):
